@@ -1,5 +1,5 @@
 SPECIFICATION Spec
-CONSTANTS MaxLen = 3
+CONSTANTS MaxLen = 2
   Vocabulary <- SmallElements
   Contexts <- InitsAll
 INVARIANT OpEqDen
@@ -9,4 +9,5 @@ INVARIANT AffixOnce
 INVARIANT PendingOnce
 PROPERTY NameStable
 PROPERTY AffixConsumed
+INVARIANT Emitted
 CHECK_DEADLOCK FALSE
